@@ -27,6 +27,7 @@ type c05Scen struct {
 	seed      int64
 	readBuf   [2]int // reader buffer sizes (client, server); 0 = 40000
 	double    int    // > 0: each "break" makes that many sends in a row fail
+	ws        bool   // the client uses the websocket transport (through the REST front door)
 }
 
 var c05Bufs = []int{1, 511, 4096, 16384, 32767, 32768, 32769, 40000, 70000}
@@ -78,6 +79,28 @@ func c05Scenarios(thorough bool) []c05Scen {
 			sizes: [2][]int{pick(14, false), pick(14, false)}, pDrop: 0.02, breaks: 4,
 			faultFor: 8 * time.Second, double: k, readBuf: [2]int{40000, 40000}})
 	}
+	// the browser / WASM path: the client's websocketTransport through the
+	// REST/websocket front door of the relay (JSON envelopes, one socket per
+	// stream, an error message and a closed socket instead of a stream error)
+	out = append(out, c05Scen{name: "ws-all-sizes", ws: true, sizes: [2][]int{c05Sizes, c05Sizes}})
+	out = append(out, c05Scen{name: "ws-all-sizes-kk", ws: true, prepaired: true, sizes: [2][]int{c05Sizes, c05Sizes},
+		readBuf: [2]int{32769, 4096}})
+	nws := 3
+	if thorough {
+		nws = 12
+	}
+	for i := 0; i < nws; i++ {
+		sc := c05Scen{name: "ws-faults", ws: true, prepaired: i%2 == 0, seed: int64(9000 + i),
+			pDrop:    []float64{0.02, 0.1, 0.25}[r.Intn(3)],
+			maxDelay: time.Duration(r.Intn(300)) * time.Millisecond,
+			breaks:   1 + r.Intn(3), faultFor: time.Duration(4+r.Intn(8)) * time.Second}
+		sc.sizes = [2][]int{pick(6+r.Intn(10), i%3 == 0), pick(6+r.Intn(10), i%3 == 1)}
+		sc.readBuf = [2]int{c05Bufs[1+r.Intn(len(c05Bufs)-1)], c05Bufs[1+r.Intn(len(c05Bufs)-1)]}
+		if i%2 == 1 {
+			sc.double = 2
+		}
+		out = append(out, sc)
+	}
 	// the relay goes away for good in the middle of a transfer: the
 	// connection has to fail visibly
 	out = append(out, c05Scen{name: "relay-dies", prepaired: true, seed: 1,
@@ -88,7 +111,7 @@ func c05Scenarios(thorough bool) []c05Scen {
 func runC05(sc c05Scen) (*lncrun.Session, [2]int, error) {
 	var ids [2]int
 	s, err := lncrun.New(lncrun.Options{PrePaired: sc.prepaired, Patience: 90 * time.Second,
-		ReadBuf: sc.readBuf})
+		ReadBuf: sc.readBuf, Websocket: sc.ws})
 	if err != nil {
 		return nil, ids, err
 	}
@@ -232,7 +255,7 @@ func TestC05Streams(t *testing.T) {
 				t.Errorf("%s: %v", sc.name, err)
 				return
 			}
-			desc := map[string]any{"i": i, "scen": sc.name, "prepaired": sc.prepaired, "pDrop": sc.pDrop,
+			desc := map[string]any{"i": i, "scen": sc.name, "prepaired": sc.prepaired, "pDrop": sc.pDrop, "websocket": sc.ws,
 				"maxDelayMs": int(sc.maxDelay / time.Millisecond), "breaks": sc.breaks,
 				"faultForS": int(sc.faultFor / time.Second), "readBuf": sc.readBuf, "sizesC": sc.sizes[0], "sizesS": sc.sizes[1]}
 			ev := append([]trace.Event{{"ev": "reset", "scen": sc.name, "i": i,
@@ -242,7 +265,7 @@ func TestC05Streams(t *testing.T) {
 			// MailboxLink.tla's LossyFifo)
 			link := append([]trace.Event{{"ev": "reset", "op": "reset", "scen": sc.name, "i": i}},
 				s.LinkEvents()...)
-			stat := append([]trace.Event{{"ev": "reset", "scen": sc.name, "i": i}}, s.Stat.Events()...)
+			stat := append([]trace.Event{{"ev": "reset", "scen": sc.name, "i": i, "ws": b2i(sc.ws)}}, s.Stat.Events()...)
 			mu.Lock()
 			outs = append(outs, out{ev, desc, link, stat})
 			mu.Unlock()
